@@ -2,7 +2,7 @@
 # usage: try_seed.sh <seed-dir> <check command...>
 # applies the seeded change to /repo, runs the command, and always reverts
 d=$1; shift
-git -C /repo apply "$d/patch.diff" || { echo "patch does not apply"; exit 9; }
+git -C /repo apply "$(realpath "$d")/patch.diff" || { echo "patch does not apply"; exit 9; }
 "$@"
 rc=$?
 git -C /repo checkout -- . 
